@@ -145,9 +145,16 @@ def run(ctx, res):
         gfile.to_file(g, cart)
         cart2 = os.path.join(ctx.tmp, 'g%d.p8' % i)
         gfile.to_file(g, cart2)
+        cli_exc = None
         with U.quiet(), contextlib.redirect_stdout(io.StringIO()), contextlib.redirect_stderr(io.StringIO()):
-            tool.main(['-q', 'luafmt', '--indentwidth', str(w), cart])
-            tool.main(['-q', 'luafmt', '--indentwidth', str(w), '--overwrite', cart2])
+            try:
+                tool.main(['-q', 'luafmt', '--indentwidth', str(w), cart])
+                tool.main(['-q', 'luafmt', '--indentwidth', str(w), '--overwrite', cart2])
+            except Exception as e:
+                cli_exc = e
+        if cli_exc is not None:
+            res.fail('C09:cli:' + hx(src)[:60], 'p8tool luafmt raised %r on a valid program' % (cli_exc,), {'source': hx(src), 'indentwidth': w})
+            continue
         res.evaluations += 1
         res.count('cli')
         try:
